@@ -4,10 +4,10 @@ package main
 // RO-IF(context.DontAutoCreate); hand-written frame contracts are verified by the ordinary path.
 
 import (
-	"go/ast"
-	"golang.org/x/tools/go/ssa"
 	"encoding/json"
 	"fmt"
+	"go/ast"
+	"golang.org/x/tools/go/ssa"
 	"os"
 	"path/filepath"
 	"sort"
